@@ -93,7 +93,10 @@ static char g_tick[160] = "nonterm|?";
 int __real_randInt(int low, int high);
 double __real_randDouble(double low, double high);
 int __wrap_randInt(int low, int high) { vx_tick(g_tick); return __real_randInt(low, high); }
-double __wrap_randDouble(double low, double high) { vx_tick(g_tick); return __real_randDouble(low, high); }
+/* KMeansppCenters hands the cumulative squared distances (B, A] of its internal distance vector to randDouble: the only
+ * place where the result of its sliced distance worker can be observed (the stream is observed, never altered) */
+static uint64_t g_draw_hash = 0;
+double __wrap_randDouble(double low, double high) { vx_tick(g_tick); double a[2] = {low, high}; g_draw_hash = vx_hash_doubles(a, 2, g_draw_hash); return __real_randDouble(low, high); }
 
 /* ------------------------------------------------------------------ ThreadSanitizer report hook */
 static volatile int g_race = 0; static char g_race_desc[48]; static void *volatile g_race_addr;
@@ -393,16 +396,18 @@ static void run_algo(int which, int n, int th, int c, int fam) {
   } else {
     int want = which == 3 || which == 4 ? (n < 5 ? n : 5) : (n < 4 ? n : 4);
     int metric = which == 2 ? 0 : (n + c + fam) % 3;
-    uivector *s1, *st; initUIVector(&s1); initUIVector(&st);
+    uivector *s1, *st; initUIVector(&s1); initUIVector(&st); uint64_t dh[2];
     for (int pass = 0; pass < 2; pass++) {
       uivector *s = pass ? st : s1; size_t t = pass ? (size_t)th : 1;
       if (pass) race_reset();
-      srand_(7); vx_tick_reset();
+      srand_(7); vx_tick_reset(); g_draw_hash = 0;
       if (which == 1) MDC(m, (size_t)want, metric, s, t);
       else if (which == 2) KMeansppCenters(m, (size_t)want, s, (int)t);
       else if (which == 3) MaxDis(m, (size_t)want, metric, s, t);
       else MaxDis_Fast(m, (size_t)want, metric, s, t);
+      dh[pass] = g_draw_hash;
     }
+    if (which == 2) { KEY(key, "thread-independence", "KMeansppCenters:sampling-weights", cl); JUDGE(dh[0] == dh[1], key, "KMeansppCenters(%d x %d, %d centres): the cumulative squared distances handed to randDouble differ between %d threads and 1 thread (the sliced distance worker skipped or repeated rows)", n, c, want, th); }
     vx_transition(2); race_check(fn, cl);
     KEY(key, "selection-valid", fn, cl); JUDGE(valid_selection(st, want, n), key, "%s(%d x %d, select %d, metric %d) with %d threads: %zu indices, not all distinct and < %d", fn, n, c, want, metric, th, st->size, n);
     KEY(key, "thread-independence", fn, cl); JUDGE(uiv_equal(s1, st), key, "%s(%d x %d, select %d, metric %d): selection with %d threads differs from 1 thread", fn, n, c, want, metric, th);
